@@ -85,14 +85,18 @@ def writes_value(f):
 
 def run(check):
     tier = check.tier
-    types = ['double'] if tier == 'quick' else ['double', 'float']
+    ieee_types = ['double'] if tier == 'quick' else ['double', 'float']
+    types = ['double', 'float', 'long double']      # REAL obligations for all three; bit-precise ones for ieee_types
     check.checker_cmd = 'clang++ -ast-dump=json | phqv lower | phqv symex (REAL) -> z3 nlsat ; goto-cc | goto-instrument --dfcc --enforce-contract Direction::Set | cbmc'
     check.assume('REAL: machine arithmetic treated as exact (the representation invariant |d|^2 == 1 or d == 0 holds exactly over the reals); the "four ulps" constant of the property is NOT machine-checked: the normalisation has 5 roundings on the longest path (3 squares+2 adds share paths, sqrt, divide), reported as a rounding count')
     check.assume('input range: finite components whose squared length neither overflows nor underflows')
     check.assume('libm sqrt contract r >= 0 and r*r == x (REAL); CBMC sqrt is correctly rounded (IEEE)')
     tasks, jobs = [], []
+    loaded = dict(zip(types, pmap(lambda T_: Quant(check, types=(T_,), other_types=('float' if T_ == 'double' else 'double',), conv=True, hash_=False), types)))
     for T in types:
-        Q = Quant(check, types=(T,), other_types=('float' if T == 'double' else 'double',), conv=True, hash_=False)
+        if T not in ieee_types:
+            jobs_mark = len(jobs)
+        Q = loaded[T]
         low = Q.low
         D = Dims(Q)
         tag = T.replace(' ', '_')
@@ -174,6 +178,8 @@ def run(check):
         check.extra['vector_quantity_types_' + tag] = nv
         if nv != 17:
             check.error('must-fire: expected 17 vector quantity types, found %d' % nv)
+        if T not in ieee_types:
+            del jobs[jobs_mark:]       # no bit-precise obligation for this type in this tier
     check.log('%d REAL obligations, %d IEEE obligations' % (len(tasks), len(jobs)))
     for t, ob in zip(tasks, pmap(lambda t: t.run(), tasks)):
         check.add(ob)
